@@ -124,7 +124,7 @@ impl<const K: usize> H<K> {
 impl<const K: usize> Default for H<K> {
     fn default() -> Self {
         let h = Self::new();
-        ev(json!({"ev": "default_new", "task": cur_task(), "ty": K, "inst": h.inst}));
+        ev(json!({"ev": "default_new", "task": cur_task(), "ty": K.to_string(), "inst": h.inst}));
         h
     }
 }
@@ -262,15 +262,22 @@ impl std::fmt::Display for ScriptedError {
 }
 impl std::error::Error for ScriptedError {}
 
+/// Instances spawned by the registry (no scenario entry): one yield in started and in stopped.
+fn service_scripts() -> ActorScripts {
+    let y = Effect { e: "yield".into(), n: 0, s: String::new() };
+    ActorScripts { sscr: vec![vec![y.clone()]], pscr: vec![y], fscr: vec![] }
+}
+
 impl<const K: usize> Actor for H<K> {
     async fn started(&mut self, ctx: &mut Context<Self>) -> DynResult<()> {
         let me = cur_task();
+        crate::scenario::bind_name(hannibal::verif::VerifId::__verif_id(&*ctx), &me);
         let (scr, _inc) = WORLD.with(|w| {
             let mut w = w.borrow_mut();
             let n = w.starts.entry(me.clone()).or_insert(0);
             *n += 1;
             let inc = *n - 1;
-            let sc = w.scripts.get(&me).cloned().unwrap_or_default();
+            let sc = w.scripts.get(&me).cloned().unwrap_or_else(service_scripts);
             let scr = if sc.sscr.is_empty() { vec![] } else { sc.sscr[(inc as usize).min(sc.sscr.len() - 1)].clone() };
             (scr, inc)
         });
@@ -278,7 +285,7 @@ impl<const K: usize> Actor for H<K> {
     }
     async fn stopped(&mut self, ctx: &mut Context<Self>) {
         let me = cur_task();
-        let scr = WORLD.with(|w| w.borrow().scripts.get(&me).cloned().unwrap_or_default().pscr);
+        let scr = WORLD.with(|w| w.borrow().scripts.get(&me).cloned().unwrap_or_else(service_scripts).pscr);
         let _ = self.callback(ctx, "p", scr).await;
     }
 }
